@@ -28,12 +28,14 @@ type nodeState struct {
 	pubSets map[uint64][]string
 	pubCur  map[string]bool
 	pubSeq  uint64
+	failIn  int
+	fails   int
 }
 
 // Saveable reports whether the state consists of table contents only: nothing queued, nothing
 // parked (parked Interests hold callbacks, which cannot be copied), no harness anomaly.
 func (s *Sim) Saveable() bool {
-	if vsched.Pending() > 0 || len(s.Problems) > 0 || len(s.Held) > 0 {
+	if vsched.Pending() > 0 || len(s.Problems) > 0 || len(s.Held) > 0 || len(s.InFlight) > 0 || vtime.PendingTimers() > 0 {
 		return false
 	}
 	for _, n := range s.Nodes {
@@ -56,7 +58,7 @@ func (s *Sim) Save() *SimState {
 	st := &SimState{clock: vtime.Now().Sub(vtime.Epoch), live: copyBoolMap(s.Live), alt: copyBoolMap(s.Alt)}
 	for _, n := range s.Nodes {
 		ns := nodeState{up: n.Up, rs: n.DV.VerifSave(), nonce: n.Eng.nonce, routes: make(map[RouteKey]uint64, len(n.Routes)),
-			cmdProb: append([]string{}, n.CmdProblems...), pubSets: make(map[uint64][]string, len(n.PubSets)), pubCur: copyBoolMap(n.PubCur), pubSeq: n.PubSeq}
+			cmdProb: append([]string{}, n.CmdProblems...), pubSets: make(map[uint64][]string, len(n.PubSets)), pubCur: copyBoolMap(n.PubCur), pubSeq: n.PubSeq, failIn: n.Eng.failIn, fails: n.Eng.fails}
 		for k, v := range n.Routes {
 			ns.routes[k] = v
 		}
@@ -70,18 +72,20 @@ func (s *Sim) Save() *SimState {
 
 // Restore writes a saved state back into this simulation's router objects.
 func (s *Sim) Restore(st *SimState) {
-	vtime.Reset(false)
+	vtime.Reset(true)
 	vtime.Advance(st.clock)
 	vsched.Reset()
 	s.Live, s.Alt = copyBoolMap(st.live), copyBoolMap(st.alt)
 	s.Problems, s.AdvSeen = nil, nil
 	s.Held, s.HeldDesc, s.holdSite, s.holdCut = nil, "", "", false
+	s.InFlight = nil
 	for i, n := range s.Nodes {
 		ns := st.nodes[i]
 		n.Up = ns.up
 		n.DV.VerifRestore(ns.rs)
 		n.Eng.outbox = nil
 		n.Eng.nonce = ns.nonce
+		n.Eng.failIn, n.Eng.fails, n.Eng.rejected, n.Eng.execd = ns.failIn, ns.fails, nil, nil
 		n.Routes = make(map[RouteKey]uint64, len(ns.routes))
 		for k, v := range ns.routes {
 			n.Routes[k] = v
@@ -101,9 +105,9 @@ func (s *Sim) Restore(st *SimState) {
 // times. It is used to cross-check restored states against plain re-execution.
 func (s *Sim) FullDump() string {
 	var b strings.Builder
-	fmt.Fprintf(&b, "clock+%v %s alt=%v tasks=%d held=%d\n", vtime.Now().Sub(vtime.Epoch), s.Mode(), sortedPairs(s.Alt), vsched.Pending(), len(s.Held))
+	fmt.Fprintf(&b, "clock+%v %s alt=%v tasks=%d held=%d inflight=%d\n", vtime.Now().Sub(vtime.Epoch), s.Mode(), sortedPairs(s.Alt), vsched.Pending(), len(s.Held), len(s.InFlight))
 	for i, n := range s.Nodes {
-		fmt.Fprintf(&b, "[r%d up=%v nonce=%d seq=%d]\n", i, n.Up, n.Eng.nonce, n.DV.VerifAdvertSeq())
+		fmt.Fprintf(&b, "[r%d up=%v nonce=%d seq=%d failIn=%d fails=%d rejected=%v]\n", i, n.Up, n.Eng.nonce, n.DV.VerifAdvertSeq(), n.Eng.failIn, n.Eng.fails, n.Eng.rejected)
 		for _, v := range n.DV.VerifNeighbors().VerifDump() {
 			fmt.Fprintf(&b, " N %s seq=%d face=%d act=%v age=%d dead=%v adv={%s}\n", s.shortH(v.NameH), v.AdvertSeq, v.FaceId, v.Active, v.AgeNs, v.Dead, advertStr(s, v.Advert, false))
 		}
